@@ -1,0 +1,39 @@
+//go:build verif
+
+// Verification hooks (build tag "verif" only): accessors for the unexported connection
+// authentication/authorization steps of the discovery server. No behaviour change; absent from
+// normal builds.
+
+package xds
+
+import (
+	"context"
+
+	core "github.com/envoyproxy/go-control-plane/envoy/config/core/v3"
+
+	"istio.io/istio/pilot/pkg/model"
+	"istio.io/istio/pkg/spiffe"
+)
+
+// VerifC11InitProxyMetadata exposes DiscoveryServer.initProxyMetadata.
+func VerifC11InitProxyMetadata(s *DiscoveryServer, node *core.Node) (*model.Proxy, error) {
+	return s.initProxyMetadata(node)
+}
+
+// VerifC11Authenticate exposes DiscoveryServer.authenticate.
+func VerifC11Authenticate(s *DiscoveryServer, ctx context.Context) ([]string, error) {
+	return s.authenticate(ctx)
+}
+
+// VerifC11Authorize runs DiscoveryServer.authorize on a bare connection around the proxy, the way
+// initConnection does after initProxyMetadata.
+func VerifC11Authorize(s *DiscoveryServer, proxy *model.Proxy, identities []string) error {
+	con := newConnection("verif", nil)
+	con.proxy = proxy
+	return s.authorize(con, identities)
+}
+
+// VerifC11CheckConnectionIdentity exposes checkConnectionIdentity.
+func VerifC11CheckConnectionIdentity(proxy *model.Proxy, identities []string) (*spiffe.Identity, error) {
+	return checkConnectionIdentity(proxy, identities)
+}
